@@ -2,6 +2,7 @@ package checks
 
 import (
 	"fmt"
+	"math"
 	"time"
 
 	"verifharness/core"
@@ -228,7 +229,7 @@ func combos() []combo {
 		model: func(subs [][]strategy.Action, cl []float64) []strategy.Action { return modelInverse(subs[0]) }})
 	cs = append(cs, combo{name: "NoLoss", k: 1, needs: true, build: func(s []strategy.Strategy) strategy.Strategy { return decorator.NewNoLossStrategy(s[0]) },
 		model: func(subs [][]strategy.Action, cl []float64) []strategy.Action { return modelNoLoss(subs[0], cl) }, inv: noLossInvariant})
-	for _, pct := range []float64{0, 0.25, 0.5} {
+	for _, pct := range []float64{0, 0.25, 0.5, 1} {
 		pct := pct
 		cs = append(cs, combo{name: fmt.Sprintf("StopLoss(%v)", pct), k: 1, needs: true,
 			build: func(s []strategy.Strategy) strategy.Strategy { return decorator.NewStopLossStrategy(s[0], pct) },
@@ -374,45 +375,52 @@ func comboUnit(c *core.Ctx, cb combo, L int, first int) {
 			for j := range subs {
 				subs[j] = toActions(ws[idx[j]])
 			}
-			for _, cw := range clWords {
-				cl := make([]float64, L)
-				for i, s := range cw {
-					cl[i] = closeAlphabet[s]
-				}
-				stubs := make([]strategy.Strategy, cb.k)
-				for j := range stubs {
-					stubs[j] = &stubStrategy{word: subs[j]}
-				}
-				run := RunStrategy(cb.build(stubs), closeSnaps(cl), 0, mc.Options{})
-				n++
-				c.Executions++
-				c.Transitions += int64(run.Res.Events)
-				got := make([]strategy.Action, len(run.Actions))
-				for i, a := range run.Actions {
-					got[i] = strategy.Action(a)
-				}
-				cs := map[string]any{"combinator": cb.name, "sub_actions": subs, "closings": cl, "got": run.Actions}
-				if !run.Healthy() || run.Res.Buffered > 0 {
-					c.Fail("", fmt.Sprintf("%s over %v closings %v: did not terminate cleanly (deadlock=%v panics=%d closed=%v)", cb.name, subs, cl, run.Res.Deadlock, len(run.Res.Panics), run.Closed), cs)
-					continue
-				}
-				want := cb.model(subs, cl)
-				if !eqActs(got, want) {
-					c.Fail("", fmt.Sprintf("%s over sub-strategy actions %v closings %v: got %v, documented combination gives %v", cb.name, subs, cl, got, want), cs)
-					continue
-				}
-				if cb.inv != nil {
-					if msg := cb.inv(got, cl); msg != "" {
-						c.Fail("", fmt.Sprintf("%s over %v closings %v emits %v: %s", cb.name, subs, cl, got, msg), cs)
+			alphabets := [][]float64{closeAlphabet}
+			if cb.needs && L <= 4 {
+				// closes that are no ordinary prices: a missing quote read as NaN, and a worthless asset (close 0)
+				alphabets = append(alphabets, []float64{2, math.NaN(), 3, 1}, []float64{2, 0, 3, 1})
+			}
+			for _, alphabet := range alphabets {
+				for _, cw := range clWords {
+					cl := make([]float64, L)
+					for i, s := range cw {
+						cl[i] = alphabet[s]
 					}
-				}
-				o := fmt.Sprint(got)
-				if !outcomes[o] {
-					outcomes[o] = true
-					nontriv++
-				}
-				if n == 30 {
-					c.Sample(map[string]any{"combinator": cb.name, "sub_actions": subs, "closings": cl, "actions": run.Actions})
+					stubs := make([]strategy.Strategy, cb.k)
+					for j := range stubs {
+						stubs[j] = &stubStrategy{word: subs[j]}
+					}
+					run := RunStrategy(cb.build(stubs), closeSnaps(cl), 0, mc.Options{})
+					n++
+					c.Executions++
+					c.Transitions += int64(run.Res.Events)
+					got := make([]strategy.Action, len(run.Actions))
+					for i, a := range run.Actions {
+						got[i] = strategy.Action(a)
+					}
+					cs := map[string]any{"combinator": cb.name, "sub_actions": subs, "closings": cl, "got": run.Actions}
+					if !run.Healthy() || run.Res.Buffered > 0 {
+						c.Fail("", fmt.Sprintf("%s over %v closings %v: did not terminate cleanly (deadlock=%v panics=%d closed=%v)", cb.name, subs, cl, run.Res.Deadlock, len(run.Res.Panics), run.Closed), cs)
+						continue
+					}
+					want := cb.model(subs, cl)
+					if !eqActs(got, want) {
+						c.Fail("", fmt.Sprintf("%s over sub-strategy actions %v closings %v: got %v, documented combination gives %v", cb.name, subs, cl, got, want), cs)
+						continue
+					}
+					if cb.inv != nil {
+						if msg := cb.inv(got, cl); msg != "" {
+							c.Fail("", fmt.Sprintf("%s over %v closings %v emits %v: %s", cb.name, subs, cl, got, msg), cs)
+						}
+					}
+					o := fmt.Sprint(got)
+					if !outcomes[o] {
+						outcomes[o] = true
+						nontriv++
+					}
+					if n == 30 {
+						c.Sample(map[string]any{"combinator": cb.name, "sub_actions": subs, "closings": cl, "actions": run.Actions})
+					}
 				}
 			}
 		}
